@@ -60,3 +60,7 @@ _DWS.late_subscribe = True
 _DWS.must_fail = False  # the function's mutants are judged by the mapper-form contract (this one covers the subscription delay's handlers only)
 
 CONTRACTS = [_REL, _absolute(_REL), _DWM, _DWS]
+# native runner (timedrun.py: the mapper returns timer(d + 10 for None elements), subscription delays timer(sd)): replay, thorough
+# cross-check, bounded stand-in on drift
+_DWM.runner = ("timedrun.py", "delay_with_mapper")
+_DWS.runner = ("timedrun.py", "delay_with_mapper")
